@@ -1087,9 +1087,9 @@ func (in *Interp) exec(fr *Frame, ins ssa.Instruction) {
 		}
 		in.set(fr, x, p.field(x.Field))
 	case *ssa.Index:
-		in.set(fr, x, in.index(in.get(fr, x.X), in.get(fr, x.Index), x.X.Type()))
+		in.set(fr, x, in.index(in.get(fr, x.X), in.widenIndex(in.get(fr, x.Index), x.Index.Type()), x.X.Type()))
 	case *ssa.IndexAddr:
-		in.set(fr, x, in.indexAddr(in.get(fr, x.X), in.get(fr, x.Index), x.X.Type()))
+		in.set(fr, x, in.indexAddr(in.get(fr, x.X), in.widenIndex(in.get(fr, x.Index), x.Index.Type()), x.X.Type()))
 	case *ssa.Lookup:
 		in.set(fr, x, in.lookup(in.get(fr, x.X), in.get(fr, x.Index), x.X.Type(), x.CommaOk))
 	case *ssa.MakeClosure:
@@ -1698,6 +1698,19 @@ func (in *Interp) makeSlice(et types.Type, ln, cp int) Slice {
 
 func (in *Interp) elemPtr(s Slice, i int) Ptr {
 	return s.arr.field(s.off + i)
+}
+
+// widenIndex brings an index of any integer type to 64 bits according to its signedness (a uint8
+// index 251 is 251, not -5).
+func (in *Interp) widenIndex(v Value, t types.Type) Value {
+	it, ok := v.(*Term)
+	if !ok || it.w >= 64 {
+		return v
+	}
+	if b, ok := t.Underlying().(*types.Basic); ok && b.Info()&types.IsUnsigned != 0 {
+		return in.st.ZExt(it, 64)
+	}
+	return in.st.SExt(it, 64)
 }
 
 // symIndex handles an index term: returns concrete index if constant, else -1 and the term.
